@@ -107,6 +107,14 @@ class ImageWriter:
     def export_image(self, image: LTImage) -> str:
         """Save an LTImage to disk"""
         (width, height) = image.srcsize
+        for value in (width, height, image.bits):
+            if not isinstance(value, int) or isinstance(value, bool) or value < 1:
+                msg = "Invalid image size or depth: %r x %r, %r bits" % (
+                    width,
+                    height,
+                    image.bits,
+                )
+                raise PDFValueError(msg)
 
         filters = image.stream.get_filters()
 
